@@ -1,5 +1,5 @@
 (* RunC12.v — executable entry points for the C12 correspondence check. *)
-From GC Require Import Base Rust TypeExpr Heck Strs Naming Enums Schema Query Attrs Dfs Codegen RunGen.
+From GC Require Import Base Rust TypeExpr Heck Strs Naming Enums Schema Query Attrs Dfs Codegen Serde RunGen.
 
 Definition case := gcase.
 Definition corr := gen_corr.
@@ -38,3 +38,23 @@ Definition prop_finite (c : gcase) : bool :=
 
 (* the generator must accept these programs (they are valid) *)
 Definition accepted (c : gcase) : bool := match g_obs c with GOk _ => true | _ => false end.
+
+(* ---- the indirection is invisible in JSON: serde treats Box<T> as T, so the only way a Box can
+   show on the wire is through the attributes of the member.  A member of an input struct (or of
+   Variables) is skipped-when-None exactly when the option is on and its type, Box stripped, is an
+   Option — boxed or not. *)
+Definition prop_box_transparent (c : gcase) : bool :=
+  match g_obs c with
+  | GOk ms =>
+      forallb (fun m =>
+        forallb (fun it =>
+          match it with
+          | IStruct n d _ fs =>
+              (* input structs and Variables: derive(Serialize ...) without Deserialize *)
+              if mem_str "Serialize" d && negb (mem_str "Deserialize" d)
+              then forallb (fun f => Bool.eqb (f_skip_none f) (o_skip_none (g_opts c) && is_option_type (f_ty f))) fs
+              else true
+          | _ => true
+          end) (m_items m)) ms
+  | _ => true
+  end.
